@@ -30,7 +30,7 @@ class Collector(cachesys.Collector):
   pass
 
 
-def explore(ctx, wm, cfg, r_ops, faults, preexisting, bound, nrandom, limit, sink):
+def explore(ctx, wm, cfg, r_ops, faults, preexisting, bound, nrandom, limit, sink, segments=None):
   def run_once(chooser):
     run = writersys.WriterRun(wm, cfg, r_ops, faults=faults, preexisting=preexisting)
     tr, log = run.execute(chooser)
@@ -39,9 +39,13 @@ def explore(ctx, wm, cfg, r_ops, faults, preexisting, bound, nrandom, limit, sin
   base = dict(cfg={k: v for k, v in cfg.items()}, r_ops=r_ops, faults=sorted(faults), preexisting=sorted(preexisting),
               limits=wm.configured)
   n = 0
-  for forced, log in sched.explore_bounded(run_once, bound, limit=limit):
+  for forced, log in sched.explore_bounded(run_once, bound, limit=limit, rng=ctx.rng):
     n += 1
     sink(run_once.last, dict(base, forced=sorted(forced.items()), kind='bounded'))
+  for seg in (segments or ()):
+    run_once(sched.segment_chooser(seg))
+    n += 1
+    sink(run_once.last, dict(base, segments=[list(x) for x in seg], kind='segments'))
   for i in range(nrandom):
     seed = ctx.rng.randrange(1 << 30)
     rr = random.Random(seed)
@@ -59,6 +63,8 @@ def rerun(wm, origin):
                             preexisting=tuple(origin['preexisting']))
   if origin['kind'] == 'bounded':
     ch = sched.forced_chooser(dict((int(s), t) for s, t in origin['forced']))
+  elif origin['kind'] == 'segments':
+    ch = sched.segment_chooser([tuple(x) for x in origin['segments']])
   else:
     rr = random.Random(origin['rseed'])
     ch = sched.random_chooser(rr, switch_p=rr.choice([0.03, 0.1, 0.3]))
